@@ -105,7 +105,10 @@ def _gen_options(rng: random.Random, grid: dict) -> dict:
                      {"least_squares_params": {"max_nfev": 12}},
                      {"least_squares_params": {"max_nfev": 3}},
                      {"least_squares_params": {"xtol": 1e-2, "ftol": 1e-2}},
-                     {"least_squares_params": {"loss": "soft_l1"}, "vmin": None}])
+                     {"least_squares_params": {"loss": "soft_l1"}, "vmin": None},
+                     {"least_squares_params": {"method": "dogbox"}},
+                     {"least_squares_params": {"method": "dogbox", "max_nfev": 20}, "vmax": None},
+                     {"least_squares_params": {"method": "trf", "x_scale": "jac"}}])
     opts["refine_args"] = copy.deepcopy(ra)
     modes = 0
     if dim == 2 and grid["kind"] == "cart" and rng.random() < 0.25:
@@ -218,6 +221,8 @@ def generate(streams: Streams, tier: str, index: int) -> dict:
                 t = times[0] if k == nf // 2 else t + rng.choice([1, 0.5])
         tasks = nf
         opts["refine"] = rng.random() < 0.5
+        # the progress display must not change what is returned (serial or with workers)
+        opts["progress"] = rng.choice([False, False, True, None])
         if system == "tracks_from_storage":
             for k in ("threshold", "minimal_radius", "modes", "refine_args", "interface_width"):
                 opts.pop(k, None)
@@ -262,7 +267,17 @@ def _build_call(case: dict, share_inputs: bool = False):
     from droplets.image_analysis import locate_droplets, refine_droplets
 
     system, opts = case["system"], dict(case["options"])
+    progress = opts.pop("progress", False)
     fields = [scenes.render(f) for f in case["frames"]]
+
+    def quiet(fn):
+        if progress is False:
+            return fn()
+        import contextlib
+        import io
+
+        with contextlib.redirect_stderr(io.StringIO()):
+            return fn()
     shared_storage = [MemoryStorage.from_fields(list(case["times"]), [f.copy() for f in fields])] \
         if share_inputs and system in ("from_storage", "tracks_from_storage") else [None]
 
@@ -325,15 +340,15 @@ def _build_call(case: dict, share_inputs: bool = False):
             kw = shared_kw if share_inputs else {k: copy.deepcopy(v) for k, v in opts.items()}
             st = shared_storage[0] if share_inputs else MemoryStorage.from_fields(
                 list(case["times"]), [f.copy() for f in fields])
-            return droplets.EmulsionTimeCourse.from_storage(st, num_processes=n,
-                                                            progress=False, **kw)
+            return quiet(lambda: droplets.EmulsionTimeCourse.from_storage(
+                st, num_processes=n, progress=progress, **kw))
     else:
         def call(n):
             st = shared_storage[0] if share_inputs else MemoryStorage.from_fields(
                 list(case["times"]), [f.copy() for f in fields])
-            return droplets.DropletTrackList.from_storage(
+            return quiet(lambda: droplets.DropletTrackList.from_storage(
                 st, method=opts["method"], refine=opts["refine"], num_processes=n,
-                progress=False)
+                progress=progress))
     return call
 
 
